@@ -37,6 +37,58 @@ DIGIT_TEXTS = ["2024", "202401", "20240101", "19691231", "00010101", "99991231",
 ISO_TZ_SPELLINGS = ("colon", "nocolon")  # +hh:mm[:ss] / +hhmm[ss]
 
 
+_ALL_ZONES = None
+
+
+def all_zones():
+    """Every zone of the system database the stdlib can load (deep mode), without the posix/ right/ duplicates."""
+    global _ALL_ZONES
+    if _ALL_ZONES is None:
+        try:
+            names = sorted(zoneinfo.available_timezones())
+        except Exception:  # noqa: BLE001
+            names = []
+        _ALL_ZONES = [n for n in names if not n.startswith(("posix/", "right/")) and n not in ("localtime", "Factory")] or list(ZONES)
+    return _ALL_ZONES
+
+
+def var_offset_seconds(c, fold, a, b):
+    """Offset rule of the user-defined tzinfo class VarTZ (independent restatement used by the model)."""
+    off = a if c[1] <= 6 else b
+    if fold and abs(off - 3600) < 86400:
+        off -= 3600
+    return off
+
+
+class VarTZ(_dt.tzinfo):
+    """A user-defined tzinfo (not a zoneinfo / timezone object): offset a in the first half of a year, b in the second,
+    one hour less for fold=1.  No dst(), no fromutc() override."""
+
+    def __init__(self, a, b):
+        self.a, self.b = a, b
+
+    def utcoffset(self, dt):
+        if dt is None:
+            return _dt.timedelta(seconds=self.a)
+        return _dt.timedelta(seconds=var_offset_seconds([dt.year, dt.month], dt.fold, self.a, self.b))
+
+    def dst(self, dt):
+        return None
+
+    def tzname(self, dt):
+        return "VAR"
+
+    def __repr__(self):
+        return "VarTZ(%d, %d)" % (self.a, self.b)
+
+    def __reduce__(self):
+        return (VarTZ, (self.a, self.b))
+
+
+class SubDT(_dt.datetime):
+    """A datetime subclass as applications define them (input form 'objsub')."""
+
+
 def zone(name):
     try:
         return zoneinfo.ZoneInfo(name)
@@ -134,9 +186,13 @@ def _rand_components(rng):
     return [y, mo, d, h, mi, s, us]
 
 
-def _rand_tz(rng):
-    """-> tz spec: None | ["utc"] | ["fixed", secs] | ["zone", name]"""
+def _rand_tz(rng, deep=False):
+    """-> tz spec: None | ["utc"] | ["fixed", secs] | ["zone", name] | ["custom", a, b] (deep mode)"""
     r = rng.random()
+    if deep and r > 0.9:
+        return ["custom", rng.choice(FIXED_MIN + FIXED_SEC), rng.choice(FIXED_MIN + FIXED_SEC + [0])]
+    if deep and r > 0.62:
+        return ["zone", rng.choice(all_zones())]
     if r < 0.15:
         return None
     if r < 0.28:
@@ -148,21 +204,28 @@ def _rand_tz(rng):
     return ["zone", rng.choice(ZONES)]
 
 
-def gen_spec(rng, form=None, want=None):
+def gen_spec(rng, form=None, want=None, deep=False):
     """One timestamp input spec.  `want` in (None, 'fold', 'gap', 'lmt', 'edge', 'avro_threshold') biases the datetime."""
     form = form or rng.choice(FORMS)
+    if deep and form == "obj" and rng.random() < 0.25:
+        form = "objsub"
     if form in ("epoch_int", "epoch_float"):
         return _gen_epoch(rng, form, want)
     if form in ("iso", "isobytes") and rng.random() < 0.06:
         return {"form": "digits", "text": rng.choice(DIGIT_TEXTS), "bytes": form == "isobytes"}
     c = _rand_components(rng)
-    tz = _rand_tz(rng)
+    tz = _rand_tz(rng, deep)
     fold = rng.choice([0, 0, 1])
-    if form in ("iso", "isobytes") and tz and tz[0] == "zone":
+    objform = form in ("obj", "ftobj", "objsub")
+    if form in ("iso", "isobytes") and tz and tz[0] in ("zone", "custom"):
         tz = ["fixed", rng.choice(FIXED_MIN + FIXED_SEC)]  # text carries offsets, not zone names
-    if want in ("fold", "gap") and form in ("obj", "ftobj"):
+    if want in ("fold", "gap") and objform:
         zname = rng.choice(ZONES[:6] + ZONES[9:])
         year = rng.choice([rng.randint(1975, 2037), 2023, 2021])
+        if deep and rng.random() < 0.8:
+            # any zone of the database, any year since 1900: 30-minute and 24-hour shifts, negative DST, LMT switches
+            zname = rng.choice(all_zones())
+            year = rng.randint(1900, 2037)
         walls = [w for w, kind in ambiguous_walls(zname, year) if kind == want]
         if walls:
             w = rng.choice(walls) + _dt.timedelta(minutes=rng.choice([0, 0, 1, 15, 29]), seconds=rng.choice([0, 59]),
@@ -170,9 +233,9 @@ def gen_spec(rng, form=None, want=None):
             c = [w.year, w.month, w.day, w.hour, w.minute, w.second, w.microsecond]
             tz = ["zone", zname]
             fold = rng.choice([0, 1])
-    elif want == "lmt" and form in ("obj", "ftobj"):
+    elif want == "lmt" and objform:
         c[0] = rng.randint(1800, 1905)
-        tz = ["zone", rng.choice(ZONES)]
+        tz = ["zone", rng.choice(all_zones() if deep else ZONES)]
     elif want == "edge":
         # year 1 / 9999 with an offset: the UTC instant may fall outside years 1..9999 (the wall clock stays inside)
         if rng.random() < 0.5:
@@ -264,6 +327,8 @@ def tzinfo_of(tz):
         return UTC
     if tz[0] == "fixed":
         return _dt.timezone(_dt.timedelta(seconds=tz[1]))
+    if tz[0] == "custom":
+        return VarTZ(tz[1], tz[2])
     z = zone(tz[1])
     if z is None:
         raise LookupError("zone %s not available" % tz[1])
@@ -305,6 +370,28 @@ def render_iso(spec):
     return out + _fmt_offset(tz[1], spec["tzs"])
 
 
+def foreign_text_spec(rng, fd, sep, tzs, z, deep=False):
+    """ISO text as OTHER producers write it: a chosen number of fractional digits (0..9), separator 'T' / ' ' / 't',
+    offset spelled Z / +hhmm / +hh:mm[:ss].  The expectation stays the components."""
+    sp = gen_spec(rng, "iso", rng.choice(WANTS), deep)
+    while sp["form"] != "iso" or sp.get("notime") or sp.get("style", "ext") != "ext":
+        sp = gen_spec(rng, "iso", None, deep)
+    c = sp["c"]
+    sp["fd"] = fd
+    sp["extra"] = "".join(rng.choice("0123456789") for _ in range(max(0, fd - 6)))
+    if fd == 0:
+        c[6] = 0
+    elif fd < 6:
+        q = 10 ** (6 - fd)
+        c[6] = (c[6] // q) * q or q * rng.randint(1, 9)  # keep a non-zero fraction: '.5' must not be read as '.000005'
+    elif not c[6]:
+        c[6] = rng.randint(1, 999999)
+    sp["sep"] = sep
+    sp["tzs"] = tzs
+    sp["z"] = bool(z and sp["tz"] == ["utc"])
+    return sp
+
+
 def stdlib_reference(spec):
     """What this Python's datetime.fromisoformat makes of the text (naive => UTC), as an observation; None when the
     stdlib does not accept the spelling (then the text is outside the ISO class of this interpreter)."""
@@ -339,6 +426,8 @@ def build(spec, ftmod=None):
     if form == "ftobj":
         # the field type's own constructor with component arguments
         return ftmod.datetime(*spec["c"], tzinfo=tzinfo, fold=spec["fold"])
+    if form == "objsub":
+        return SubDT(*spec["c"], tzinfo=tzinfo, fold=spec["fold"])
     return _dt.datetime(*spec["c"], tzinfo=tzinfo, fold=spec["fold"])
 
 
@@ -373,6 +462,8 @@ def expected(spec, obj=None):
         off = 0
     elif tz[0] == "fixed":
         off = tz[1] * 10**6
+    elif tz[0] == "custom":
+        off = var_offset_seconds(c, spec["fold"], tz[1], tz[2]) * 10**6
     else:
         ref = _dt.datetime(*c, tzinfo=tzinfo_of(tz), fold=spec["fold"])
         off = td_us(ref.utcoffset())
@@ -393,6 +484,8 @@ def tzkind(spec):
         return "utc"
     if tz[0] == "fixed":
         return "fixed-sec" if tz[1] % 60 else "fixed-min"
+    if tz[0] == "custom":
+        return "custom-tzinfo-fold%d" % spec["fold"]
     c = spec["c"]
     z = zone(tz[1])
     if z is None:
@@ -410,7 +503,7 @@ def tzkind(spec):
 WANTS = (None, None, None, "fold", "gap", "lmt", "edge", "avro_threshold")
 
 
-def make_specs(rng, n):
+def make_specs(rng, n, deep=False):
     """`n` specs cycling through the input forms and the biased datetime families.  Only inputs with a defined
     expectation (all-digit texts the stdlib parser refuses are drawn again; see make_undefined_texts)."""
     out = []
@@ -421,7 +514,7 @@ def make_specs(rng, n):
         want = rng.choice(WANTS)
         if want in ("fold", "gap", "lmt") and form not in ("obj", "ftobj"):
             form = rng.choice(["obj", "obj", "ftobj"])
-        sp = gen_spec(rng, form, want)
+        sp = gen_spec(rng, form, want, deep)
         if expected(sp) is None:
             continue
         out.append(sp)
